@@ -3,7 +3,7 @@
 export VERIF_EVIDENCE_DIR=${VERIF_EVIDENCE_DIR:-/tmp/allquick-ev}
 mkdir -p $VERIF_EVIDENCE_DIR
 for i in 01 02 03 04 05 06 07 08 09 10 11 12 13 14 15 16 17; do
-  ( out=$(/venv/bin/python /verif/engine/check.py C$i --tier quick 2>&1); c=$?; if [ $c -ne 0 ]; then echo "== C$i exit=$c"; echo "$out" | grep -v "WARNING conda" | cut -c1-600 | head -${LINES_MAX:-12}; fi ) &
+  ( out=$(/venv/bin/python $(dirname $(readlink -f $0))/../engine/check.py C$i --tier quick 2>&1); c=$?; if [ $c -ne 0 ]; then echo "== C$i exit=$c"; echo "$out" | grep -v "WARNING conda" | cut -c1-600 | head -${LINES_MAX:-12}; fi ) &
 done
 wait
 echo "all_quick done"
